@@ -5,7 +5,7 @@
     action.run <max_run> <min_wait> <start> <t>:<0|1> …   -> <run times,…|-> <count>
   tokens: N:<text-hex>:<bits>  E:<text-hex>:<FuncType code>  L  R  A  O  C:<gt|ge|lt|le|eq|ne>
           T:<text-hex>:<strtod bits>:<FuncType code>   raw token, classified by the MODEL (`classify`)
-  ctx:    WF=<code of FuncType::well>  MF=<code of FuncType::time_month>
+  ctx:    WF=<code of FuncType::well>  MF=<code of FuncType::time_month>  UD=<bits of udq_undefined>
           K:<key-hex>=<bits>           (everything `Context::get(key)` knows)
           P:<func-hex>:<pattern-hex>:<well-hex,…|->   (wells of `func` matching the pattern; old form)
           W:<func-hex>:<well-hex,…|->  (`SummaryState::wells(func)`; the MODEL matches the pattern)
@@ -25,6 +25,7 @@ import OpmVerif.Model.ActionTok
 namespace OpmVerif.Act
 
 def hexStr (s : String) : Option String :=
+  if s = "-" then some "" else
   (ofHex s).map fun bs => String.ofList (bs.map fun b => Char.ofNat b.toNat)
 def strHex (s : String) : String := if s.isEmpty then "-" else toHex (s.toList.map fun c => UInt8.ofNat c.toNat)
 def hexNat (s : String) : Option Nat :=
@@ -43,17 +44,32 @@ def parseOp : String → Option CmpOp
 def opCode : CmpOp → Nat
   | .gt => 4 | .ge => 5 | .lt => 6 | .le => 7 | .eq => 8 | .ne => 9
 
-def parseTok (s : String) : Option Tok :=
+/-- a raw token: the MODEL classifies the text (`Parser::get_type`); `bv` = what `strtod` returns,
+`fv` = `get_func` code -/
+def mkTok (text : String) (bv fv : Nat) : Tok :=
+  let ty := classify text.toList
+  { ty := ty,
+    text := (match ty with
+      | .lp => "(" | .rp => ")" | .and => "AND" | .or => "OR"
+      | .cmp o => (match o with | .gt => "gt" | .ge => "ge" | .lt => "lt" | .le => "le" | .eq => "eq" | .ne => "ne")
+      | _ => text),
+    bits := (match ty with | .number => bv.toUInt64 | _ => 0),
+    func := (match ty with | .expr => fv | _ => 0) }
+
+/-- deck tokens: `dequote` first (inner `none` = unbalanced quote) -/
+def parseTokDq (s : String) : Option (Option Tok) :=
   match s.splitOn ":" with
-  | ["N", t, b] => do pure { ty := .number, text := (← hexStr t), bits := (← hexNat b).toUInt64 }
   | ["T", t, b, f] => do
     let text ← hexStr t
     let bv ← hexNat b
     let fv ← f.toNat?
-    let ty := classify text.toList
-    pure { ty := ty, text := (match ty with | .lp => "(" | .rp => ")" | .and => "AND" | .or => "OR" | .cmp o => (match o with | .gt => "gt" | .ge => "ge" | .lt => "lt" | .le => "le" | .eq => "eq" | .ne => "ne") | _ => text),
-           bits := (match ty with | .number => bv.toUInt64 | _ => 0),
-           func := (match ty with | .expr => fv | _ => 0) }
+    pure ((dequote text.toList).map fun d => mkTok (String.ofList d) bv fv)
+  | _ => none
+
+def parseTok (s : String) : Option Tok :=
+  match s.splitOn ":" with
+  | ["N", t, b] => do pure { ty := .number, text := (← hexStr t), bits := (← hexNat b).toUInt64 }
+  | ["T", t, b, f] => do pure (mkTok (← hexStr t) (← hexNat b) (← f.toNat?))
   | ["E", t, f] => do pure { ty := .expr, text := (← hexStr t), func := (← f.toNat?) }
   | ["L"] => some { ty := .lp, text := "(" }
   | ["R"] => some { ty := .rp, text := ")" }
@@ -83,9 +99,11 @@ structure RawCtx where
   pats : List ((String × String) × List String) := []
   carrying : List (String × List String) := []
   wlists : List (String × List String) := []
+  udqUndef : Float := 0.0
 
 def addItem (c : RawCtx) (item : String) : Option RawCtx :=
   if item.startsWith "WF=" then ((item.drop 3).toString.toNat?).map fun n => { c with wellCode := n }
+  else if item.startsWith "UD=" then (hexNat (item.drop 3).toString).map fun n => { c with udqUndef := Float.ofBits n.toUInt64 }
   else if item.startsWith "MF=" then ((item.drop 3).toString.toNat?).map fun n => { c with monthCode := n }
   else match item.splitOn ":" with
     | ["K", kv] =>
@@ -108,12 +126,25 @@ def wlistWells (wl : List (String × List String)) (pat : String) : List String 
     (wl.filter fun p => globMatch (pat.toList.drop 1) (p.1.toList.drop 1)).foldl
       (fun acc p => p.2.foldl (fun a w => if a.contains w then a else a ++ [w]) acc) []
 
+/-- `is_udq` of SummaryState.cpp: `AU* BU* CU* FU* GU* RU* SU* WU*` -/
+def isUdq (k : String) : Bool :=
+  match k.toList with
+  | c :: 'U' :: _ => "WGFCRBSA".toList.contains c
+  | _ => false
+
+/-- `Context::get(key)`: own values and summary vectors (both in `keys`); an unknown UDQ key gives
+`SummaryState::udq_undefined`, any other unknown key throws -/
+def getKey (c : RawCtx) (k : String) : Option Float :=
+  match c.keys.lookup k with
+  | some v => some v
+  | none => if isUdq k then some c.udqUndef else none
+
 /-- `ASTNode::nodeValue` -/
 def nodeValue (c : RawCtx) : Leaf → Except Unit (Value Float)
   | .num b => .ok (.scalar (Float.ofBits b))
   | .expr f ft args =>
     match args with
-    | [] => match c.keys.lookup f with
+    | [] => match getKey c f with
       | some v => .ok (.scalar v)
       | none => .error ()
     | a :: more =>
@@ -124,17 +155,16 @@ def nodeValue (c : RawCtx) : Leaf → Except Unit (Value Float)
             match c.pats.lookup (f, a) with
             | some ws => some ws
             | none =>
-              match c.carrying.lookup f with
-              | some cw => some (getWellList (wlistWells c.wlists) cw a)
-              | none => if isWellListName a.toList then some (wlistWells c.wlists a) else none
+              -- `SummaryState::wells(var)` of an unknown vector is empty
+              some (getWellList (wlistWells c.wlists) ((c.carrying.lookup f).getD []) a)
           match wsel with
           | none => .error ()
           | some ws =>
-            match ws.mapM fun w => (c.keys.lookup (f ++ ":" ++ w)).map fun v => (w, v) with
+            match ws.mapM fun w => (getKey c (f ++ ":" ++ w)).map fun v => (w, v) with
             | some l => .ok (.wells l)
             | none => .error ()
       else
-        match c.keys.lookup (f ++ ":" ++ ":".intercalate args) with
+        match getKey c (f ++ ":" ++ ":".intercalate args) with
         | none => .error ()
         | some v => if ft = c.wellCode then .ok (.wells [(a, v)]) else .ok (.scalar v)
 
@@ -225,6 +255,21 @@ def handle (op : String) (args : List String) : String :=
         | .ok r => showRes r
         | .error _ => "err"
       | _ => "noparse"
+    | _, _ => "bad-op"
+  | "action.deckeval" =>
+    let (ctxItems, toks) := splitBar args
+    match ctxItems.foldlM addItem ({} : RawCtx), toks.mapM parseTokDq with
+    | some rc, some ots =>
+      match ots.mapM id with
+      | none => "noparse"
+      | some ts =>
+        match parse ts with
+        | .empty => "ok 0 -"
+        | .tree c =>
+          match evalCond slt (leafEval rc) c with
+          | .ok r => showRes r
+          | .error _ => "err"
+        | _ => "noparse"
     | _, _ => "bad-op"
   | "action.classify" =>
     match args with
